@@ -99,7 +99,14 @@ def main():
                         open(q, 'wb').write(b'this is not gzip data')
             start = dirs[c['start']]
             try:
-                r = find_top_level_manifest(start, allow_xdev=c['xdev'], allow_compressed=c['compr'])
+                kw = {'allow_xdev': c['xdev'], 'allow_compressed': c['compr']}
+                if c.get('defaults'):
+                    # the documented defaults, as the command-line tool relies on them: crossing allowed, compressed names not considered
+                    if c['xdev']:
+                        del kw['allow_xdev']
+                    if not c['compr']:
+                        del kw['allow_compressed']
+                r = find_top_level_manifest(start, **kw)
                 if r is None:
                     res = ['ok', None]
                 else:
